@@ -595,6 +595,64 @@ Proof.
   reflexivity.
 Qed.
 
+(* ---------- a failed attempt, then the sender's next attempt ---------- *)
+Lemma feed_k_app cur a : forall b,
+  feed_k cur (a ++ b) = let '(c1, o1) := feed_k cur a in let '(c2, o2) := feed_k c1 b in (c2, o1 ++ o2).
+Proof.
+  revert cur. induction a as [|x a IH]; intros cur b.
+  - cbn [app feed_k]. destruct (feed_k cur b); reflexivity.
+  - cbn [app feed_k]. destruct (step_k cur x) as [c1 o]. rewrite IH. destruct (feed_k c1 a) as [c2 os]. destruct (feed_k c2 b) as [c3 os']. reflexivity.
+Qed.
+
+(* blocks of a message before its last one are kept, nothing is handed out *)
+Lemma feed_k_prefix h data j : (j < length (split_blocks data h true))%nat -> (0 < j)%nat ->
+  exists acc, feed_k None (firstn j (split_blocks data h true)) = (Some acc, repeat None j).
+Proof.
+  destruct (split_spec h data) as (_ & _ & Hsz & Hhdr). set (bl := split_blocks data h true) in *. intros Hj H0.
+  (* the general step: any block of the message that is not the last yields no output and keeps a partial message *)
+  assert (Hstep : forall i b cur, nth_error bl i = Some b -> (S i < length bl)%nat ->
+            (cur = None /\ i = 0%nat \/ (exists acc0, cur = Some acc0) /\ (0 < i)%nat) ->
+            exists acc1, step_k cur b = (Some acc1, None)).
+  { intros i b cur Hb Hi Hc. pose proof (Hhdr i b Hb) as Hh.
+    assert (He : s_e (sb_hdr b) = false).
+    { rewrite Hh. cbn [s_e with_block]. destruct (Z.eqb_spec (Z.of_nat i + 1) (Z.of_nat (length bl))); [lia|reflexivity]. }
+    assert (Hl : (length (sb_data b) <= 244)%nat) by (rewrite Forall_forall in Hsz; apply Hsz; apply nth_error_In with i; exact Hb).
+    destruct Hc as [[-> ->]|[[acc0 ->] Hi0]].
+    - unfold step_k. rewrite resplit_first by exact Hl. unfold msg_header, last_block_of. cbn [map last sb_hdr with_block s_e]. rewrite He.
+      eexists. reflexivity.
+    - unfold step_k. assert (starts_message b = false) as ->.
+      { unfold starts_message. rewrite Hh. cbn [s_block with_block].
+        destruct (Z.eqb_spec (Z.of_nat i + 1) 0); [lia|]. destruct (Z.eqb_spec (Z.of_nat i + 1) 1); [lia|]. reflexivity. }
+      rewrite msg_header_snoc, He. eexists. reflexivity. }
+  (* induction over the prefix length, from the front *)
+  assert (Hgen : forall n i cur, (i + n <= j)%nat ->
+            (cur = None /\ i = 0%nat \/ (exists acc0, cur = Some acc0) /\ (0 < i)%nat) -> (0 < n)%nat ->
+            exists acc, feed_k cur (firstn n (skipn i bl)) = (Some acc, repeat None n)).
+  { induction n as [|n IHn]; intros i cur Hin Hc Hn; [lia|].
+    destruct (nth_error bl i) as [b|] eqn:Eb; [|apply nth_error_None in Eb; lia].
+    assert (Es : skipn i bl = b :: skipn (S i) bl).
+    { clear -Eb. revert i Eb. induction bl as [|x l IHl]; intros i Eb; destruct i; cbn in *; try discriminate; [injection Eb as ->; reflexivity|apply IHl; exact Eb]. }
+    rewrite Es. cbn [firstn feed_k]. destruct (Hstep i b cur Eb ltac:(lia) Hc) as [acc1 ->].
+    destruct n as [|n'].
+    - cbn [firstn feed_k repeat]. exists acc1. reflexivity.
+    - destruct (IHn (S i) (Some acc1) ltac:(lia) ltac:(right; split; [exists acc1; reflexivity|lia]) ltac:(lia)) as [acc2 E2].
+      rewrite E2. exists acc2. reflexivity. }
+  destruct (Hgen j 0%nat None ltac:(lia) ltac:(left; split; reflexivity) H0) as [acc E]. cbn [skipn] in E. exists acc. exact E.
+Qed.
+
+(* the first j blocks of a message arrive, the attempt is abandoned (a later block was refused), the sender starts over:
+   the message is handed out exactly once, complete, at the end of the second attempt *)
+Theorem reassembly_retry h data j : (j < length (split_blocks data h true))%nat ->
+  let bl := split_blocks data h true in
+  feed_k None (firstn j bl ++ bl) = (None, repeat None (j + (length bl - 1)) ++ [Some (with_block h (Z.of_nat (length bl)) true, data)]).
+Proof.
+  intros Hj. cbv zeta. destruct j as [|j'].
+  - cbn [firstn app Nat.add]. apply reassembly_single.
+  - rewrite feed_k_app. destruct (feed_k_prefix h data (S j') Hj ltac:(lia)) as [acc ->].
+    rewrite (reassembly_after_abandoned h data acc). pose proof (reassembly_single h data) as S. cbv zeta in S. rewrite S.
+    rewrite app_assoc, <- repeat_app. reflexivity.
+Qed.
+
 (* =====================  HSMS (C04)  ===================== *)
 Definition hhdr_fields_ok (h : hhdr) : Prop :=
   (0 <= h_session h < 65536)%Z /\ (0 <= h_stream h < 128)%Z /\ (0 <= h_function h < 256)%Z /\
